@@ -39,7 +39,6 @@ import (
 	mockproposalpreparer "github.com/attestantio/vouch/services/proposalpreparer/mock"
 	mocksigner "github.com/attestantio/vouch/services/signer/mock"
 	"github.com/attestantio/vouch/verifsupport"
-	"github.com/google/uuid"
 	"github.com/prysmaticlabs/go-bitfield"
 	"github.com/rs/zerolog"
 	e2types "github.com/wealdtech/go-eth2-types/v2"
@@ -81,20 +80,22 @@ func (p *c14PubKey) Marshal() []byte            { return p.b[:] }
 func (*c14PubKey) Aggregate(_ e2types.PublicKey) {}
 func (p *c14PubKey) Copy() e2types.PublicKey    { c := *p; return &c }
 
+// c14Account is an inert account.  The embedded (nil) interface supplies the ID method, which nothing
+// in the code under test calls (naming its result type would need a module that the repository
+// requires only indirectly).
 type c14Account struct {
+	e2wtypes.Account
 	index uint64
-	id    uuid.UUID
 	pub   *c14PubKey
 }
 
 func c14NewAccount(index uint64) *c14Account {
-	a := &c14Account{index: index, id: uuid.New(), pub: &c14PubKey{}}
+	a := &c14Account{index: index, pub: &c14PubKey{}}
 	binary.LittleEndian.PutUint64(a.pub.b[:8], index)
 	a.pub.b[47] = 0xc1
 	return a
 }
 
-func (a *c14Account) ID() uuid.UUID                { return a.id }
 func (a *c14Account) Name() string                 { return fmt.Sprintf("c14 validator %d", a.index) }
 func (a *c14Account) PublicKey() e2types.PublicKey { return a.pub }
 
